@@ -124,6 +124,8 @@ def corpus_key(seed, tier):
 
 def load_or_run(seed, tier):
     """returns dict: cases (descr list), rows per feature: list of rows with cid/nth attached, stats"""
+    from common import ensure_tools
+    ensure_tools()
     key = corpus_key(seed, tier)
     root = os.path.join(CACHE, "corpus", key)
     done = os.path.join(root, "result.json")
